@@ -30,7 +30,7 @@ var Check = &ev.Check{
 	Level: "exploration",
 	Rule: "histories: 4 base programs (single file; root + included file in a subdirectory; two independent files, one two directories deep; two independent files sharing a base name in different directories) x every edit script of length<=2 over 17 edit kinds at every applicable position " +
 		"(remove service/method, add required/optional field, optional<->required, change field type to i64 / list<i32> / a typedef of the old type, add method/service/struct/const+typedef+enum/file, delete unused struct, delete file, reorder fields/definitions), " +
-		"each committed as HEAD~/HEAD of a scratch git repository. Each history is checked in-process through git.Compare under every map-iteration order (<=1 deviating range execution) in internal/compare and compile, and through the real thriftbreak binary in readable and JSON mode (quick: scripts of 2 edits are judged in-process under the default order only). " +
+		"each committed as HEAD~/HEAD of a scratch git repository. Each history is checked in-process through git.Compare under every map-iteration order (<=1 deviating range execution) in internal/compare and compile, and through the real thriftbreak binary in readable and JSON mode (single edits: under six spellings of the repository directory - absolute, trailing separator, dot segments, relative, '.', default) (quick: scripts of 2 edits are judged in-process under the default order only). " +
 		"Oracle: the multiset of diagnostics reduced to (file, quoted names) equals ref/breakref's; exit status non-zero iff non-empty; identical across orders. Cases are distinct (base, script) pairs; non-trivial = scripts containing at least one breaking edit.",
 	Prepare: prepare,
 	Run:     run,
@@ -296,12 +296,32 @@ func run(w *ev.W) {
 			w.Violation(sigOf(script, "order-dependent"), fmt.Sprintf("script %v: reported set depends on map iteration order: %s", script, strings.Join(ks, " vs ")), h)
 		}
 		// the real binary, both output modes
-		for _, mode := range []string{"readable", "json"} {
-			args := []string{"-C", dir}
-			if mode == "json" {
+		// ... and every spelling of the repository directory: absolute, with a trailing
+		// separator, with dot segments, relative to the parent and "." from inside
+		type spelling struct{ name, arg, cwd string }
+		spellings := []spelling{{"abs", dir, ""}}
+		if len(script) <= 1 {
+			spellings = append(spellings, spelling{"trailing-slash", dir + "/", ""}, spelling{"dot-segments", filepath.Dir(dir) + "/./" + filepath.Base(dir) + "/../" + filepath.Base(dir), ""},
+				spelling{"relative", "./" + filepath.Base(dir), filepath.Dir(dir)}, spelling{"dot", ".", dir}, spelling{"default-cwd", "", dir})
+		}
+		for mi, mode := range []string{"readable", "json", "readable", "json", "readable", "json", "readable", "json", "readable", "json", "readable", "json"} {
+			sp := spellings[0]
+			if mi >= 2 {
+				if mi/2 >= len(spellings) {
+					break
+				}
+				sp = spellings[mi/2]
+				mode = mode + "[-C " + sp.name + "]"
+			}
+			var args []string
+			if sp.arg != "" {
+				args = []string{"-C", sp.arg}
+			}
+			if strings.HasPrefix(mode, "json") {
 				args = append(args, "-json")
 			}
 			cmd := exec.Command(bin, args...)
+			cmd.Dir = sp.cwd
 			var stdout, stderr bytes.Buffer
 			cmd.Stdout, cmd.Stderr = &stdout, &stderr
 			err := cmd.Run()
@@ -317,7 +337,7 @@ func run(w *ev.W) {
 				if line == "" {
 					continue
 				}
-				if mode == "json" {
+				if strings.HasPrefix(mode, "json") {
 					var d struct{ FilePath, Message string }
 					if json.Unmarshal([]byte(line), &d) != nil {
 						w.Violation(sigOf(script, "json-output"), fmt.Sprintf("unparseable JSON line %q", line), h)
